@@ -191,7 +191,7 @@ def show_handler(h):
         items.insert(min(h.get('ell', len(items)), len(items)), '...')
     if len(items) == 1 and h.get('one') and not h['inc']:
         return 'Concurrent[%s]' % items[0]
-    return 'Concurrent[(%s)]' % ''.join(i + ', ' for i in items)
+    return 'Concurrent[(%s)]' % ''.join(i + ',' for i in items) if len(items) < 2 else 'Concurrent[%s]' % ', '.join(items)
 
 
 def monitor_pair(w, tree, h, exc=None, H=None):
@@ -221,11 +221,11 @@ def monitor_flatten(w, tree, exc=None):
     exc = w.exc(tree) if exc is None else exc
 
     def walk(e):
-        if isinstance(e, w.Concurrent):
+        if type(e) in w.index:     # a plain exception of the hierarchy (no use of the metaclass here)
+            yield e
+        else:
             for c in e.children:
                 yield from walk(c)
-        else:
-            yield e
     want = list(walk(exc))
     problems = []
     try:
@@ -253,9 +253,9 @@ def leaf_label(w, x):
 # rendering as Coq terms
 # ---------------------------------------------------------------------------------------------------
 def coq_exc(e, w):
-    if isinstance(e, w.Concurrent):
-        return 'Node [%s]' % '; '.join(coq_exc(c, w) for c in e.children)
-    return 'Leaf %d %d' % (w.index[type(e)], e.serial)
+    if type(e) in w.index:
+        return 'Leaf %d %d' % (w.index[type(e)], e.serial)
+    return 'Node [%s]' % '; '.join(coq_exc(c, w) for c in e.children)
 
 
 def coq_handler(h):
